@@ -228,6 +228,7 @@ def configs(tier):
         for af in ((), ("lock", "stall")):
             intrs = [dict(gran=g, feat=af) for g in igs]
             add(dict(dw=dw, gran=gran, afeat=af, intrs=intrs, aw=1))
+    add(dict(dw=8, gran=8, afeat=("lock", "stall"), intrs=[dict(gran=8, feat=("lock", "stall")) for _ in range(3)], elab_twice=True))
     # a refused add() in the middle of the history must leave no trace
     for af in (("err",), ("err", "rty", "lock")):
         for n, pos in ((2, 1), (3, 1), (3, 2)):
